@@ -19,7 +19,8 @@ from concurrent.futures import ThreadPoolExecutor
 from .. import core, bldgen
 
 FAM = core.Family("bld")
-WORK = os.path.join(core.CACHE, "bld", "c14")
+# keyed by the repository the run looks at (PV_REPO copies) and by the process: concurrent runs never share a work directory
+WORK = os.path.join(core.CACHE, "bld", "c14_%s_%d" % ("repo" if os.path.realpath(core.REPO) == "/repo" else hashlib.sha1(os.path.realpath(core.REPO).encode()).hexdigest()[:8], os.getpid()))
 LEVEL = "proof"
 
 CONFIGS = [dict(mode=m, keep=k, cc=c, iu=i) for m in ("single", "split") for k in (0, 1) for c in (1, 0) for i in (0, 1)]
@@ -34,14 +35,19 @@ def cfg_flags(c):
 
 
 # ------------------------------------------------------------------------------------------------ known-finding witnesses
-def W(cls, files, expect, cfg=None, kind="thrift", entry=None, what=""):
+def W(cls, files, expect, cfg=None, kind="thrift", entry=None, what="", also=None):
+    """expect: the signature of the class (at least one diagnostic of an attributed document must match it);
+    also: follow-up diagnostics rustc reports for the same defect, too generic to count as the signature on their own"""
     return dict(cls=cls, files=files, expect=expect, cfg=cfg or dict(mode="single", keep=0, cc=1, iu=0), kind=kind,
-                entry=entry or sorted(files)[0], what=what)
+                entry=entry or sorted(files)[0], what=what, also=also)
 
 
 WITNESSES = [
-    W("union-only-by-value-cycle", {"main.thrift": "namespace rs w\nunion Ua { 1: Ub b, 2: i32 i }\nunion Ub { 1: Ua a, 2: i32 j }\n"}, r"E0072"),
-    W("path-keyword-suffix-collision", {"main.thrift": "namespace rs w\nstruct S { 1: i32 self, 2: i32 self_ }\n"}, r"E0124"),
+    W("union-only-by-value-cycle", {"main.thrift": "namespace rs w\nunion Ua { 1: Ub b, 2: i32 i }\nunion Ub { 1: Ua a, 2: i32 j }\n"},
+      r"E0072|E0391 cycle detected when computing"),     # the infinite size, and rustc's follow-up on the same types (drop / layout query cycle)
+    W("path-keyword-suffix-collision", {"main.thrift": "namespace rs w\nstruct S { 1: i32 self, 2: i32 self_ }\n"},
+      r"E0124|E0592", also=r"E0062 field `\w+` specified more than once|E0308 mismatched types"),
+    # ^ the duplicate member; follow-ups: every struct literal names it twice, and when the two members differ in type every use of one of them
     W("related-path-target-is-prefix", {"main.thrift": 'namespace rs a.b.c\ninclude "p1.thrift"\nconst i32 k = p1.b\n',
                                         "p1.thrift": "namespace rs a\nconst i32 b = 1\n"}, r"E0423",
       cfg=dict(mode="single", keep=0, cc=0, iu=0), entry="main.thrift"),
@@ -50,7 +56,7 @@ WITNESSES = [
       r"PANIC unexpected literal"),
     W("uuid-not-a-direct-field", {"main.thrift": "namespace rs w\nstruct S { 1: list<uuid> l }\ntypedef uuid Id\n"}, r"E0308"),
     W("const-of-set-type", {"main.thrift": "namespace rs w\nconst set<i32> S = [1, 2]\n"}, r"PANIC (assertion failed: l.is_empty|invalid map type)"),
-    W("item-shadows-prelude-name", {"main.thrift": "namespace rs w\ntypedef i32 Some\nstruct S { 1: optional i32 x, 2: optional Some y }\n"}, r"E0308|E0423|E0532|E0618"),
+    W("item-shadows-prelude-name", {"main.thrift": "namespace rs w\ntypedef i32 Some\nstruct S { 1: optional i32 x, 2: optional Some y }\n"}, r"E0308|E0423|E0532|E0618|E0614 type `\w+` cannot be dereferenced|E0277 the trait bound `\w+: pilota::thrift::Message`"),
     W("btree-container-of-double", {"main.thrift": 'namespace rs w\nstruct S { 1: map<i32, double> m (pilota.rust_type = "btree") }\n'}, r"E0277"),
     W("derive-cycle-edge-outside-workspace-graph",
       {"main.thrift": 'namespace rs w\nstruct A { 1: required B b, 2: required N n }\nstruct B { 1: optional A a (pilota.rust_wrapper_arc = "true") }\n'
@@ -87,7 +93,8 @@ WITNESSES = [
       r"E0530|interpreted as a constant"),  # E0308 `v` is interpreted as a constant, not a new binding: a `let v = ...` of the emitted code
     W("proto-recursive-oneof-member", {"p0.proto": 'syntax = "proto3";\npackage w;\nmessage Tree {\n  oneof node {\n    double d = 1;\n    Tree t = 2;\n  }\n}\n'},
       r"E0308", kind="pb", entry="p0.proto"),
-    W("conversion-not-idempotent-collision", {"main.thrift": "namespace rs w\nstruct AB { 1: i32 a }\nstruct Ab { 1: i32 a }\nstruct aB { 1: i32 a }\n"}, r"E0428"),
+    W("conversion-not-idempotent-collision", {"main.thrift": "namespace rs w\nstruct AB { 1: i32 a }\nstruct Ab { 1: i32 a }\nstruct aB { 1: i32 a }\n"},
+      r"E0428|E0119 conflicting implementations of trait"),     # the type defined twice, hence every derived / emitted impl twice
     W("service-name-underscore-digit", {"main.thrift": "namespace rs w\nservice _1 { i32 K(1: i32 a) }\n"}, r"exit 1|expected type"),
 ]
 FINDING_IDS = {  # class -> id in known_findings.json
@@ -225,10 +232,65 @@ def classes_of(doc, scopes, names, cfg, ucyc):
                         cls.add("type-named-like-generic-parameter")
                     if e in bldgen.SHADOWING:
                         cls.add("item-shadows-prelude-name")
-                if k in ("typedef", "enum", "const") and e == e.lower() and not e.startswith("r#"):
-                    # local bindings of the emitted code are snake_case: only an all-lower-case value item can clash
+                if k in ("typedef", "enum", "const") and e in template_bindings():
+                    # a tuple struct (typedef / enum newtype) or const lives in the VALUE namespace: it clashes with a local binding or
+                    # parameter of the emitted code only if it is spelled exactly like one of them
                     cls.add("value-item-named-like-local-binding")
     return cls
+
+
+_BINDINGS = None
+
+
+def template_bindings():
+    """the names the emission templates bind (let / closure parameters / function parameters / match arms), read from the generator's
+    sources: pilota-build/src/codegen/**, middle/context.rs, plugin/** -- the only names a lower-case value item can collide with
+    (finding F-14o).  Over-approximate (the generator's own local variables are in the set too), but far narrower than `any lower-case
+    name`."""
+    global _BINDINGS
+    if _BINDINGS is None:
+        names = set()
+        base = os.path.join(core.REPO, "pilota-build", "src")
+        for sub in ("codegen", "plugin", os.path.join("middle", "context.rs")):
+            q = os.path.join(base, sub)
+            files = [q] if os.path.isfile(q) else [os.path.join(d_, f) for d_, _, fs in os.walk(q) for f in fs if f.endswith(".rs")]
+            for f in files:
+                t = open(f, encoding="utf-8", errors="replace").read()
+                names |= set(re.findall(r"\blet\s+(?:mut\s+)?([a-z_][a-z0-9_]*)\b", t))
+                names |= set(re.findall(r"\|\s*(?:mut\s+)?([a-z_][a-z0-9_]*)\s*(?:,|\||:)", t))
+                names |= set(re.findall(r"[(,]\s*(?:mut\s+)?([a-z_][a-z0-9_]*)\s*:\s*[&A-Za-z:<\[(]", t))
+                names |= set(re.findall(r"\b(?:Some|Ok|Err)\(\s*(?:mut\s+|ref\s+)?([a-z_][a-z0-9_]*)\s*\)", t))
+                names |= set(re.findall(r"\bfor\s+\(?\s*([a-z_][a-z0-9_]*)", t))
+        names -= {"self", "_"}
+        _BINDINGS = names
+    return _BINDINGS
+
+
+def diagnostics(b, ok, errs):
+    """the individual diagnostics of a failed run: the builder's status (one), or every rustc error as `<code> <message>`"""
+    if not b["ok"]:
+        return [b["status"] + " " + b["stderr"][-600:]]
+    if ok is False:
+        return ["%s %s" % (c, m) for _, c, m in errs] or ["cargo check failed without a parsable diagnostic"]
+    return []
+
+
+def attribute(diags, classes):
+    """-> (explained, unexplained): a diagnostic is explained if it matches the `expect` of a witness of one of the given classes.
+    A document is attributed to its open classes only if EVERY diagnostic is explained"""
+    pats = [w["expect"] for w in WITNESSES if w["cls"] in classes]
+    also = [w["also"] for w in WITNESSES if w["cls"] in classes and w.get("also")]
+    ex, follow, un = [], [], []
+    for dg in diags:
+        if any(re.search(p_, dg) for p_ in pats):
+            ex.append(dg)
+        elif any(re.search(p_, dg) for p_ in also):
+            follow.append(dg)
+        else:
+            un.append(dg)
+    if not ex:                      # follow-ups alone do not identify the class
+        un, follow = un + follow, []
+    return ex, un
 
 
 def const_literal_classes(doc):
@@ -499,7 +561,7 @@ def shrink(hb, d, cfg, budget):
     return doc.texts(), steps
 
 
-def run(chk, replay=None):
+def _run(chk, replay=None):
     gate, hb = bldgen.std_setup(chk, FAM)
     chk.cov["checker_cmd"] = "make -C fam/bld/coq Properties/C14.vo && coqc -Q coq PV -Q fam/bld/coq PVBld Properties/C14.v (Print Assumptions allowlist, forbidden-vernacular grep)"
     chk.cov["trusted_base"] = core.TRUSTED_BASE[:3] + [
@@ -819,27 +881,31 @@ def run(chk, replay=None):
 
     # ---- quarantined documents (predicted known-finding classes) and the fixed witnesses: one crate each
     dist["quarantined_runs"] = len(quarantined)
-    qlimit = 6 if chk.tier == "quick" else 60
-    for di, d, c, cls in quarantined[:qlimit]:
+    dist["quarantined_compiled"] = 0
+    for di, d, c, cls in quarantined:
         b, ok2, errs2 = compile_alone(hb, d["kind"], d["files"], d["entry"], c, "quar")
+        dist["quarantined_compiled"] += 1
         chk.count("quarantined %s %s" % (d["id"], cfg_id(c)), True)
         for k in cls:
             dist["known_class_counts"][k] = dist["known_class_counts"].get(k, 0) + 1
         if not b["ok"] or ok2 is False:
             sig = signature(b, ok2, errs2)
-            matched = [w for w in WITNESSES if w["cls"] in cls and re.search(w["expect"], sig)]
+            explained, unexplained = attribute(diagnostics(b, ok2, errs2), cls)
             rep = dict(kind="document", idl_kind=d["kind"], files=d["files"], entry=d["entry"], cfg=c, classes=sorted(cls), failure=sig[:1500])
-            if matched:
-                chk.violation("known class %s: %s" % (matched[0]["cls"], sig[:200]), dict(rep, cls=matched[0]["cls"]), cls=matched[0]["cls"])
+            if not unexplained:
+                first = next(w["cls"] for w in WITNESSES if w["cls"] in cls and re.search(w["expect"], explained[0]))
+                chk.violation("known class %s: %s" % (first, sig[:200]), dict(rep, cls=first), cls=first)
             else:
-                failing.append((d, c, "a document of known class %s fails in a way that class does not explain: %s" % (sorted(cls), sig[:300]), b, errs2))
+                failing.append((d, c, "a document of known class %s has a diagnostic that class does not explain: %s" % (sorted(cls), unexplained[0][:300]), b, errs2))
     wit = WITNESSES if chk.tier == "thorough" else WITNESSES
     not_reproduced = []
     for wi, w in enumerate(wit):
         b, ok2, errs2 = compile_alone(hb, w["kind"], w["files"], w["entry"], w["cfg"], "wit")
         chk.count("witness " + w["cls"], True)
         sig = signature(b, ok2, errs2)
-        if (not b["ok"] or ok2 is False) and re.search(w["expect"], sig):
+        wdiags = diagnostics(b, ok2, errs2)
+        if (not b["ok"] or ok2 is False) and any(re.search(w["expect"], dg) for dg in wdiags) and \
+                all(re.search(w["expect"], dg) or (w.get("also") and re.search(w["also"], dg)) for dg in wdiags):
             rep = dict(kind="document", idl_kind=w["kind"], files=w["files"], entry=w["entry"], cfg=w["cfg"], cls=w["cls"], failure=sig[:800])
             if chk.known_finding(w["cls"]) is None:
                 failing.append((dict(kind=w["kind"], files=w["files"], entry=w["entry"], doc=None, id="w%d" % wi), w["cfg"],
@@ -856,7 +922,7 @@ def run(chk, replay=None):
     dist["witnesses"] = len(wit)
     dist["witnesses_not_reproduced"] = not_reproduced
     chk.cov["distribution"] = dist
-    chk.cov["programs"] = dist["compiled_modules"] + min(len(quarantined), qlimit) + len(wit)
+    chk.cov["programs"] = dist["compiled_modules"] + dist["quarantined_compiled"] + len(wit)
     chk.cov["disagreements_checked"] = len(lines) + n_emit + dist["struct_blocks_compared"] + dist["box_decisions_compared"] + dist["derive_items_compared"] + dist["service_helper_sets_compared"]
     chk.cov["model_impl_mismatches"] = len(mism)
     for d in docs[:2]:
@@ -887,3 +953,10 @@ def run(chk, replay=None):
                           dict(kind="proof", theorem_file="fam/bld/coq/Properties/C14.v", failed=gate.get("failed"), error=gate.get("error"),
                                theorems=gate["theorems"]), no_input=True)
     return chk.finish()
+
+
+def run(chk, replay=None):
+    try:
+        return _run(chk, replay)
+    finally:
+        shutil.rmtree(WORK, ignore_errors=True)      # per-process work directory: nothing in it is needed after the run
